@@ -98,6 +98,7 @@ THEOREMS = [
     "OllamaVerif.C08.edit_then_resolve",
     # Tie 1: the Link theorems at the variant found in the tree (compile only for the repaired Link, fix 834f6be9a)
     "OllamaVerif.Tie.C08.tree_link_is_fixed",
+    "OllamaVerif.Tie.C08.tree_link_zero_checked",
     "OllamaVerif.Tie.C08.tree_link_then_resolve",
     "OllamaVerif.Tie.C08.tree_link_requires_blob",
     "OllamaVerif.Tie.C08.tree_relink_same_size_takes_effect",
@@ -140,6 +141,41 @@ def tree_facts(ctx):
              "strict": bool(f.get("read_strict", 0)), "refuse": bool(f.get("neg_refused", 0))}
     variant = 0 if not f.get("link_fixed") else (2 if f.get("link_zerocheck") else 1)
     return variant, facts
+
+
+# The EXPECTED variant is the one with every fix that KNOWN_FINDINGS.jsonl lists as `fixed`: a probed variant that lacks
+# one is a regression of that finding, reported with the finding's witness history — the model adapting to the regressed
+# tree (L1 stays exact against the earlier variant) must not make a reverted repair pass.
+FIX_EXPECTATIONS = {
+    "F8": (lambda v, f: v >= 1, "Put A(7 bytes); Put B(7 bytes); Link(n,A); Link(n,B) = nil; Resolve(n) = digest(A)"),
+    "F8-clobber": (lambda v, f: v >= 1, "Link(n,A); blob B corrupt (same digest name, other bytes, other size); Link(n,B) fails and the manifest of n is truncated"),
+    "F8-zero": (lambda v, f: v == 2, "Put(d, <short source>, size) = ErrUnexpectedEOF (zero-length file stays); Link(n,d) = nil; Resolve(n) = sha256(\"\")"),
+    "F28-manifest-read-limit": (lambda v, f: f["strict"], "Put(d, c, 1 MiB + 1); Link(n,d) = nil; Resolve(n) = sha256(c[:1 MiB]) != d"),
+    "F29-negative-size-put": (lambda v, f: f["refuse"], "Put(d, c, len(c)) = nil; Put(d, <empty reader>, -1) = nil; Get(d) = ErrNotExist"),
+}
+
+
+def variant_regressions(ctx, variant, facts):
+    import json
+    import os
+    fixed = set()
+    for line in open(os.path.join(core.ROOT, "KNOWN_FINDINGS.jsonl")):
+        line = line.strip()
+        if not line:
+            continue
+        try:
+            e = json.loads(line)
+        except Exception:
+            continue
+        if e.get("property") == "C08" and e.get("status") == "fixed":
+            fixed.add(e.get("id"))
+    ctx.coverage["fixed_findings_expected_in_tree"] = sorted(fixed & set(FIX_EXPECTATIONS))
+    for fid in sorted(fixed & set(FIX_EXPECTATIONS)):
+        ok, witness = FIX_EXPECTATIONS[fid]
+        if not ok(variant, facts):
+            ctx.violation("variant-regression", "witness :: " + witness,
+                          f"finding {fid} is listed as fixed, but the tree behaves like the variant before its fix "
+                          f"(probed: link variant {variant}, {facts})")
 
 
 def regenerate(ctx, variant):
@@ -240,6 +276,7 @@ def coverage_required(ctx):
 
 def run(ctx):
     variant, ctx.c08_facts = tree_facts(ctx)
+    variant_regressions(ctx, variant, ctx.c08_facts)
     regenerate(ctx, variant)
     ctx.lean_check(MODULES, THEOREMS + HISTORICAL)
     ctx.coverage["theorems_for_tree_link"] = [t for t in THEOREMS if ".Tie.C08." in t]
